@@ -311,7 +311,11 @@ func verifHosts(l *roundRobinLoadBalancer) []*Host { return l.hosts.Load().([]*H
 // Closing: the connection is marked closing (no later registration succeeds) and every pending
 // request is told, with no connection lock held while the callbacks run.
 //@ func proxycore.ClientConn.Closing [C01, C18]
+//@   local $clTold bool = false
+//@   local $clMarked bool = false
 //@   requires c != nil && c.closingMu != nil && c.pending != nil && nolocks()
+//@   before proxycore.pendingRequests.closing#1 set $clTold = true; $clMarked = c.closing
+//@   ensures marked-then-all-told: $clTold && $clMarked [C01]
 //@   modifies *
 
 // requestSender.Send: what goes to the codec is the request's frame with the backend stream id allocated
@@ -357,9 +361,11 @@ func verifHosts(l *roundRobinLoadBalancer) []*Host { return l.hosts.Load().([]*H
 //@   local $crTarget int = 0
 //@   local $crCached bool = false
 //@   local $crOrderOK bool = true
+//@   local $crReprepared bool = false
 //@   requires c != nil && c.pending != nil && c.codec != nil && c.conn != nil && c.closingMu != nil && nolocks() && !$arrived
 //@   after frame.RawCodec.DecodeRawFrame#1 set $crDecoded = (result1 == nil); $crStream = result0.Header.StreamId; $crOpCode = result0.Header.OpCode; $arrived = (result1 == nil); $arrivedStream = result0.Header.StreamId
 //@   before proxycore.ClientConn.maybeCachePrepared#* set $crCached = true
+//@   after proxycore.ClientConn.maybePrepareAndExecute#1 set $crReprepared = result
 //@   before proxycore.Request.OnResult#1 set $crDelivered = true; $crTarget = valof(recv); $crOrderOK = ($crOpCode != primitive.OpCodeResult || $crCached || c.preparedCache == nil)
 // C08: a RESULT (possibly the answer to a PREPARE) is looked at by the prepared cache before the request - and
 // through it the client - learns about it; otherwise an EXECUTE of the new id can overtake the cache entry
@@ -370,6 +376,8 @@ func verifHosts(l *roundRobinLoadBalancer) []*Host { return l.hosts.Load().([]*H
 //@   ensures delivered-to-owner: $crDelivered ==> 0 <= $crStream && $crStream < MaxStreams && old(c.pending.$has)[$crStream] && $crTarget == old(c.pending.$val)[$crStream]
 //@   ensures entry-removed: $crDecoded && $crOpCode != primitive.OpCodeEvent && 0 <= $crStream && $crStream < MaxStreams && old(c.pending.$has)[$crStream] ==> result == nil
 //@   ensures events-not-delivered: $crDecoded && $crOpCode == primitive.OpCodeEvent ==> !$crDelivered
+// C01 "never none": a response to a pending request is handed to that request - or has started its re-preparation
+//@   ensures delivered-or-reprepared: $crDecoded && $crOpCode != primitive.OpCodeEvent && 0 <= $crStream && $crStream < MaxStreams && old(c.pending.$has)[$crStream] ==> $crDelivered || $crReprepared [C01]
 //@   modifies *, c.pending.$has, c.pending.$tag, c.pending.$val, $arrived, $arrivedStream
 
 
@@ -401,8 +409,13 @@ func verifHosts(l *roundRobinLoadBalancer) []*Host { return l.hosts.Load().([]*H
 //@   ensures re-executed-once: $prExecuted == 1 && $prNext == (old(raw.Header.OpCode) == primitive.OpCodeError)
 //@   modifies *
 
+// the connection died while the statement was being re-prepared: the request it was for is told
 //@ func proxycore.prepareRequest.OnClose [C08, C01]
+//@   local $pcTold int = 0
+//@   local $pcTarget int = 0
 //@   requires prOK(r) && nolocks()
+//@   before proxycore.Request.OnClose#* set $pcTold = $pcTold + 1; $pcTarget = valof(recv)
+//@   ensures original-request-told-once: $pcTold == 1 && $pcTarget == valof(r.origRequest)
 //@   modifies *
 
 // internalRequest.Execute must not take the process down (C17).
@@ -473,6 +486,7 @@ func verifHosts(l *roundRobinLoadBalancer) []*Host { return l.hosts.Load().([]*H
 //@ func proxycore.Conn.Close [C14, C17]
 //@   preserves-type proxycore.Cluster, proxycore.ClusterConfig
 //@   requires c != nil
+//@   ensures closed-afterwards: closed(c.closed)
 //@   modifies *
 
 // checkErr: the first error closes the connection (socket and channel), later ones change nothing.
@@ -599,8 +613,13 @@ func verifHosts(l *roundRobinLoadBalancer) []*Host { return l.hosts.Load().([]*H
 //@   ensures result1 != nil ==> result0 == nil
 //@   modifies nothing
 
+// SetKeyspace reports success only for a SET_KEYSPACE result (an error or any other answer is an error)
 //@ func proxycore.ClientConn.SetKeyspace [C07]
+//@   local $skAnswered bool = false
+//@   local $skMsg message.Message = nil
 //@   requires c != nil && c.closingMu != nil && c.pending != nil && c.conn != nil
+//@   after proxycore.ClientConn.SendAndReceive#1 set $skAnswered = (result1 == nil && result0 != nil); $skMsg = result0.Body.Message
+//@   ensures success-means-keyspace-set: result == nil ==> $skAnswered && typeis($skMsg, *message.SetKeyspaceResult)
 //@   modifies *, c.pending.$has, c.pending.$tag, c.pending.$val
 
 //@ func proxycore.ClientConn.Close
@@ -679,9 +698,16 @@ func verifHosts(l *roundRobinLoadBalancer) []*Host { return l.hosts.Load().([]*H
 //@   before proxycore.ReconnectPolicy.Reset#* set $cpReset = true
 //@   modifies *, any(time.Timer).$armed
 
-//@ func proxycore.Cluster.sendEvent [C16]
+// sendEvent: every registered listener is handed the event, once (the listeners are what turns a
+// topology change into pools and routing: a listener that is skipped never hears of a new node)
+//@ loop proxycore.Cluster.sendEvent #1
+//@   invariant $seCalls == rangeindex + 1 && c.listeners == old(c.listeners)
+//@ func proxycore.Cluster.sendEvent [C16, C14]
+//@   local $seCalls int = 0
 //@   requires c != nil
 //@   preserves-type proxycore.Cluster, proxycore.ClusterConfig
+//@   before proxycore.ClusterListener.OnEvent#* set $seCalls = $seCalls + 1
+//@   ensures every-listener-once: $seCalls == len(old(c.listeners))
 //@   modifies *
 
 //@ loop proxycore.Cluster.mergeHosts #1
